@@ -33,7 +33,11 @@ def occurrences(s, sub):
         return []
     d = (s + s[: len(sub) - 1]).upper()
     u = sub.upper()
-    return [i for i in range(n) if d[i:i + len(sub)] == u]
+    if all(c in "ACGT" for c in u):
+        return [i for i in range(n) if d[i:i + len(sub)] == u]
+    # a site with ambiguity codes: each letter of the text must be one the code stands for (codes in the TEXT match nothing)
+    sets = [gen.IUPAC.get(c, "") for c in u]
+    return [i for i in range(n) if all(d[i + j] in sets[j] for j in range(len(u)))]
 
 
 def cut_positions(s, e):
